@@ -69,7 +69,30 @@ fn gal_nums(v: &[u64]) -> String {
     }
     format!("({})", segs.join(" ++ "))
 }
+/// JSON that is valid UTF-8 whatever the engine handed back (see INVALID_UTF8)
+fn jclean(j: serde_json::Value) -> serde_json::Value {
+    use serde_json::Value as J;
+    match j {
+        J::String(s) => J::String(String::from_utf8_lossy(s.as_bytes()).into_owned()),
+        J::Array(a) => J::Array(a.into_iter().map(jclean).collect()),
+        J::Object(o) => J::Object(o.into_iter().map(|(k, v)| (String::from_utf8_lossy(k.as_bytes()).into_owned(), jclean(v))).collect()),
+        other => other,
+    }
+}
+
+/// strings that turned out not to be valid UTF-8 (only possible after a memory-safety bug in the
+/// engine: `as_str()` of a Value is `from_utf8_unchecked`); reported as oracle failures at the end
+static INVALID_UTF8: std::sync::Mutex<Vec<String>> = std::sync::Mutex::new(Vec::new());
+
 fn gal_lstr(s: &str) -> String {
+    if std::str::from_utf8(s.as_bytes()).is_err() {
+        let lossy = String::from_utf8_lossy(s.as_bytes()).into_owned();
+        let mut g = INVALID_UTF8.lock().unwrap();
+        if g.len() < 20 {
+            g.push(format!("{} bytes: {:?}", s.len(), lossy.chars().take(40).collect::<String>()));
+        }
+        return gal_nums(&lossy.chars().map(|c| c as u32 as u64).collect::<Vec<_>>());
+    }
     gal_nums(&s.chars().map(|c| c as u32 as u64).collect::<Vec<_>>())
 }
 fn gal_lbytes(b: &[u8]) -> String {
@@ -781,9 +804,9 @@ impl Model for KE {
 
 // ---------------------------------------------------------------- running one (type, value)
 
-fn de_outcome<T: Model>(r: std::thread::Result<Result<T, String>>) -> (String, serde_json::Value, bool) {
+fn de_outcome(r: std::thread::Result<Result<(String, String), String>>) -> (String, serde_json::Value, bool) {
     match r {
-        Ok(Ok(x)) => (format!("(ROk {})", x.sval()), json!({"ok": format!("{x:?}")}), false),
+        Ok(Ok((sv, dbg))) => (format!("(ROk {sv})"), json!({"ok": dbg}), false),
         Ok(Err(e)) => ("(RErr ErrMsg)".into(), json!({"err": e}), false),
         Err(_) => ("(RErr ErrPanic)".into(), json!({"panic": true}), true),
     }
@@ -791,8 +814,12 @@ fn de_outcome<T: Model>(r: std::thread::Result<Result<T, String>>) -> (String, s
 
 fn de_both<T: Model>(val: &Value) -> ((String, serde_json::Value, bool), (String, serde_json::Value, bool)) {
     let v1 = val.clone();
-    let owned = std::panic::catch_unwind(std::panic::AssertUnwindSafe(move || T::deserialize(v1).map_err(|e| e.to_string())));
-    let byref = std::panic::catch_unwind(std::panic::AssertUnwindSafe(|| T::deserialize(val).map_err(|e| e.to_string())));
+    fn describe<T: Model>(x: T) -> (String, String) {
+        let d: String = format!("{x:?}").chars().take(600).collect();
+        (x.sval(), d)
+    }
+    let owned = std::panic::catch_unwind(std::panic::AssertUnwindSafe(move || T::deserialize(v1).map(describe).map_err(|e| e.to_string())));
+    let byref = std::panic::catch_unwind(std::panic::AssertUnwindSafe(|| T::deserialize(val).map(describe).map_err(|e| e.to_string())));
     (de_outcome(owned), de_outcome(byref))
 }
 
@@ -868,6 +895,13 @@ fn kf_for(ty: &str, byref_differs: bool) -> Option<&'static str> {
 }
 
 fn run_rt<T: Model>(run: &mut Run, v: &T, tname: &str) {
+    let r = std::panic::catch_unwind(std::panic::AssertUnwindSafe(|| run_rt_inner::<T>(run, v, tname)));
+    if r.is_err() {
+        run.meta.oracle_fail("panic while running or describing a case (run_rt)", None,
+            json!({"type": tname, "value": format!("{v:?}").chars().take(400).collect::<String>()}));
+    }
+}
+fn run_rt_inner<T: Model>(run: &mut Run, v: &T, tname: &str) {
     let ty = T::ty();
     let sv = v.sval();
     let ser = guarded(|| Value::try_from_serializable(v));
@@ -954,7 +988,7 @@ fn run_rt<T: Model>(run: &mut Run, v: &T, tname: &str) {
     let desc = json!({"type": tname, "value": format!("{v:?}"), "ser": ser.json(json_value), "owned": j_owned, "byref": j_byref, "text": j_text});
     let tag_ser = if matches!(ser, Outcome::Ok(_)) { "ser:ok" } else { "ser:refused" };
     let nontrivial = sv.len() > 24;
-    run.rt.push(g, desc, nontrivial, kf_for(&ty, differs), &[tag_ser, &format!("type:{tname}")]);
+    run.rt.push(g, jclean(desc), nontrivial, kf_for(&ty, differs), &[tag_ser, &format!("type:{tname}")]);
 }
 
 /// impl-side oracle: integers print as Rust prints them
@@ -1007,6 +1041,13 @@ fn oracle_string_ctor(run: &mut Run, s: &str) {
 }
 
 fn run_cross<T: Model>(run: &mut Run, val: &Value, tname: &str) {
+    let r = std::panic::catch_unwind(std::panic::AssertUnwindSafe(|| run_cross_inner::<T>(run, val, tname)));
+    if r.is_err() {
+        run.meta.oracle_fail("panic while running or describing a case (run_cross)", None,
+            json!({"type": tname, "from_kind": format!("{:?}", val.kind())}));
+    }
+}
+fn run_cross_inner<T: Model>(run: &mut Run, val: &Value, tname: &str) {
     let ty = T::ty();
     let (o, b) = de_both::<T>(val);
     run.meta.oracle_checks += 1;
@@ -1017,10 +1058,16 @@ fn run_cross<T: Model>(run: &mut Run, val: &Value, tname: &str) {
     let g = format!("{{| x_ty := {ty}; x_val := {}; x_owned := {}; x_byref := {} |}}", gal_lvalue(val), o.0, b.0);
     let desc = json!({"type": tname, "from": json_value(val), "owned": o.1, "byref": b.1});
     let ok = o.0.starts_with("(ROk");
-    run.cross.push(g, desc, ok, kf_for(&ty, differs), &[if ok { "impl:ok" } else { "impl:err" }]);
+    run.cross.push(g, jclean(desc), ok, kf_for(&ty, differs), &[if ok { "impl:ok" } else { "impl:err" }]);
 }
 
 fn run_reser(run: &mut Run, val: &Value) {
+    let r = std::panic::catch_unwind(std::panic::AssertUnwindSafe(|| run_reser_inner(run, val)));
+    if r.is_err() {
+        run.meta.oracle_fail("panic while running or describing a case (run_reser)", None, json!({"value_kind": format!("{:?}", val.kind())}));
+    }
+}
+fn run_reser_inner(run: &mut Run, val: &Value) {
     let r = guarded(|| Value::try_from_serializable(val));
     run.meta.oracle_checks += 1;
     if let Outcome::Panic(m) = &r {
@@ -1030,7 +1077,7 @@ fn run_reser(run: &mut Run, val: &Value) {
     let desc = json!({"value": json_value(val), "reserialized": r.json(json_value)});
     let nontrivial = val.is_map() || val.is_array();
     let tag = if val.is_map() { "map" } else if val.is_array() { "array" } else { "scalar" };
-    run.reser.push(g, desc, nontrivial, None, &[tag]);
+    run.reser.push(g, jclean(desc), nontrivial, None, &[tag]);
 }
 
 /// maps with every key kind (Bool, U64, I64, U128, I128, String, Str) over every value kind, nested
@@ -1102,6 +1149,13 @@ fn reser_pool(base: &[Value]) -> Vec<Value> {
 }
 
 fn run_ctx<T: Model>(run: &mut Run, v: &T, tname: &str) {
+    let r = std::panic::catch_unwind(std::panic::AssertUnwindSafe(|| run_ctx_inner::<T>(run, v, tname)));
+    if r.is_err() {
+        run.meta.oracle_fail("panic while running or describing a case (run_ctx)", None,
+            json!({"type": tname, "value": format!("{v:?}").chars().take(400).collect::<String>()}));
+    }
+}
+fn run_ctx_inner<T: Model>(run: &mut Run, v: &T, tname: &str) {
     let sv = v.sval();
     let fs = guarded(|| Context::from_serialize(v));
     run.meta.oracle_checks += 1;
@@ -1140,7 +1194,7 @@ fn run_ctx<T: Model>(run: &mut Run, v: &T, tname: &str) {
     let g = format!("{{| k_val := {sv}; k_impl := {listing} |}}");
     let desc = json!({"type": tname, "value": format!("{v:?}"), "from_serialize": fs.json(|c| json!(format!("{c:?}")))});
     let ok = matches!(fs, Outcome::Ok(_));
-    run.ctx.push(g, desc, ok && sv.len() > 24, None, &[if ok { "impl:ok" } else { "impl:err" }]);
+    run.ctx.push(g, jclean(desc), ok && sv.len() > 24, None, &[if ok { "impl:ok" } else { "impl:err" }]);
 }
 
 /// boundary values, then `n` generated ones
@@ -1268,7 +1322,9 @@ fn cross_pool(rng: &mut Rng) -> Vec<Value> {
 
 fn main() {
     let args = parse_args();
-    silence_panics();
+    if std::env::var("C19_LOUD").is_err() {
+        silence_panics();
+    }
     let tera = Tera::default();
     let mut rng = Rng::new(args.seed);
     let thorough = args.tier == "thorough";
@@ -1342,6 +1398,10 @@ fn main() {
     for_all_types!(do_ctx, &mut run, &mut rng, n_ctx);
 
     let Run { rt, cross, ctx, reser, mut meta, oracle_only, .. } = run;
+    meta.oracle_failures = std::mem::take(&mut meta.oracle_failures).into_iter().map(jclean).collect();
+    for what in INVALID_UTF8.lock().unwrap().iter() {
+        meta.oracle_fail("a string held by a Value / returned by deserialize is not valid UTF-8", None, json!({"string": what}));
+    }
     meta.extra.insert("oracle_only_evaluations".into(), json!(oracle_only));
     meta.extra.insert("oracle_only_nontrivial".into(), json!(oracle_only));
     meta.extra.insert("cross_pool_size".into(), json!(pool.len()));
